@@ -152,7 +152,12 @@ def generate(seed, tier, index):
                     faults.add("rerun_stored_script")
             eps.append({"obj": rf.randint(0, 2), "new": rf.chance(0.5), "kind": kind, "via": via, "script": sidx,
                         "ops": ops})
-        lifetimes.append({"pyseed": rf.bits(30), "episodes": eps})
+        lt = {"pyseed": rf.bits(30), "episodes": eps}
+        if rf.chance(0.03):
+            # F13: this lifetime runs in a brand-new interpreter under another PYTHONHASHSEED
+            lt["fresh_interpreter"] = rf.choice([1, 12345, 987654321])
+            faults.add("fresh_interpreter")
+        lifetimes.append(lt)
     case = {"format": 1, "property": ID, "seed": seed, "tier": tier, "index": index, "build": "plain",
             "scripts": scripts, "lifetimes": lifetimes,
             "meta": {"kind": kind, "twin": twin, "seedless": seedless, "pyseed0": pyseed0, "faults": sorted(faults)}}
